@@ -980,6 +980,7 @@ func (bp *brokerProducer) handleSuccess(sent *produceSet, response *ProduceRespo
 				bp.currentRetries[topic][partition] = block.Err
 				if bp.parent.conf.Producer.Idempotent {
 					go bp.parent.retryBatch(topic, partition, pSet, block.Err)
+					verifGate("bp.retryBatch.spawned", topic, partition)
 				} else {
 					bp.parent.retryMessages(pSet.msgs, block.Err)
 				}
@@ -991,6 +992,7 @@ func (bp *brokerProducer) handleSuccess(sent *produceSet, response *ProduceRespo
 }
 
 func (p *asyncProducer) retryBatch(topic string, partition int32, pSet *partitionSet, kerr KError) {
+	verifGate("retryBatch.start", topic, partition)
 	Logger.Printf("Retrying batch for %v-%d because of %s\n", topic, partition, kerr)
 	produceSet := newProduceSet(p)
 	produceSet.msgs[topic] = make(map[int32]*partitionSet)
